@@ -20,8 +20,8 @@ TEXT = {
          'Kani 0.68 / CBMC 6.11 (cadical); z3 fixedpoint (Datalog) over MIR CFGs, every branch nondeterministic (over-approximation; counterexamples confirmed by the native schedule search native_stitch); poller, cache flush timing and concurrent publishes as such not covered'),
  "C11": ("Bounded model checking of the two kernels that make a partially written commit invisible: the real reader selection composed with a restatement of the writer's record shift (all records, all contents), and the commit ordering priority (epoch record last).",
          "Kani/CBMC; write side is a five-line restatement of TreeNode::write_to_storage; crash-point enumeration over a real publish is outside the claim"),
- "C15": ("Bounded model checking of the transaction read kernels (find_appropriate_item, compare_db_and_transaction_records, compare_db_version_and_transaction_record) composed exactly as StorageManager::get_user_state and ::get_user_state_versions compose them, against the specification 'committed states overridden by pending states of the same epoch', for all well-formed data within the stated sizes and all five retrieval flags; symbolic execution of the coroutine MIR of the bulk query get_user_state_versions with database, transaction log, answer map and arbiter as events: the log is consulted exactly when a transaction is open, every entry written is (version, value) of one pending record, the arbiter gets the database entry's version (the defect F-C15, fixed - epoch and version confused in three places - was found by it); plus symbolic execution of the MIR of Transaction::{begin,commit,rollback}_transaction over an abstract state (symbolic open flag, arbitrary pending multiset): begin refused while open, refused commit/rollback change nothing, commit returns every pending record once sorted by transaction priority and empties/closes the log, rollback empties/closes it.",
-         "Kani/CBMC; database pick modelled by the specification's pick; MIR walkers with container/iterator models (vk/mirsmt/txn.py, bulkw.py), counterexamples confirmed by native_txn / native_bulk on the real Transaction and StorageManager; the per-user wiring inside Transaction::get_users_states, get_user_data and the get / batch_get read paths (the latter two: C16's walker) are not covered here"),
+ "C15": ("Bounded model checking of the transaction read kernels (find_appropriate_item, compare_db_and_transaction_records, compare_db_version_and_transaction_record) composed exactly as StorageManager::get_user_state and ::get_user_state_versions compose them, against the specification 'committed states overridden by pending states of the same epoch', for all well-formed data within the stated sizes and all five retrieval flags; symbolic execution of the coroutine MIR of the bulk query get_user_state_versions with database, transaction log, answer map and arbiter as events: the log is consulted exactly when a transaction is open, every entry written is (version, value) of one pending record, the arbiter gets the database entry's version (the defect F-C15, fixed - epoch and version confused in three places - was found by it); the same walker decides that the real bodies of get_user_state and Transaction::get_users_states wire database pick, pending pick and arbiter the way the Kani kernels assume; plus symbolic execution of the MIR of Transaction::{begin,commit,rollback}_transaction over an abstract state (symbolic open flag, arbitrary pending multiset): begin refused while open, refused commit/rollback change nothing, commit returns every pending record once sorted by transaction priority and empties/closes the log, rollback empties/closes it.",
+         "Kani/CBMC; database pick modelled by the specification's pick; MIR walkers with container/iterator models (vk/mirsmt/txn.py, bulkw.py), counterexamples confirmed by native_txn / native_bulk on the real Transaction and StorageManager; the DashMap scans behind Transaction::get_user_state / get_users_data, get_user_data (all states) and the get / batch_get read paths (C16's walker) are not covered here"),
  "C17": ("Bounded model checking of NodeLabel operations against an independent bit-string oracle: loop-free operations for ALL 32-byte values and ALL lengths 0..=256; is_prefix_of and get_longest_common_prefix for all bit patterns up to the stated symbolic length bound, both shipped configurations.",
          "Kani/CBMC; alloc::fmt::format stubbed (constant message); symbolic-length loops beyond the stated widths are outside the claim"),
  "C06": ("Bounded model checking of the real lookup_verify (and the base.rs helpers it calls) with EVERY field of the LookupProof symbolic, against an honest directory state with symbolic values, nonces and epochs: an accepted proof reports exactly the latest update; the honest proof verifies. Tree-level verification is replaced by the membership oracle justified by C05 (natively, for replay, real proofs and the real tree verifiers are used).",
